@@ -19,6 +19,7 @@ OPTS = ['none', 'none', 'none', '--trash-dir', '--home-fallback',
 def config(tier):
     return {
         'level': 'exploration',
+        'cold_sample': 6 if tier == 'quick' else 40,
         'real_sample': 10 if tier == 'quick' else 80,
         'cases': 9000 if tier == 'quick' else 200000,
         'budget_s': 45 if tier == 'quick' else 560,
